@@ -12,6 +12,7 @@
  ],
  'unwindset': ['igris_mmc_crc7.0:9', 'spec_crc_byte.0:9'],
  'complete_unwinding': 'inner bit loop of igris_mmc_crc7 (8 rounds) and the 8-round loop of the reference are unwound completely (unwinding assertions on)',
+ 'fallback': 'ghost-free',
  'witness': {'unwind': 10},
 } @*/
 #include "vc.h"
@@ -36,8 +37,15 @@ void harness(void)
 
     uint8_t r = igris_mmc_crc7(data, n);
 
+#if !VC_FALLBACK
     __CPROVER_assert(g_i == n, "reference folded exactly message[0..n), in order");
     __CPROVER_assert(r == g_reg && r < 128, "igris_mmc_crc7 == reference CRC-7/MMC of message[0..n)");
+#endif
+#ifdef WITNESS_MODE
+    /* direct reference over the (small, concrete) message: does not depend on the injected ghost fold, so it also
+       decides the bounded fallback run when the loop the ghost statements anchor in has been restructured */
+    __CPROVER_assert(r == (uint8_t)spec_crc_fold(7, 0x09u, 0, 0, data, n) && r < 128, "igris_mmc_crc7 == reference CRC-7/MMC (direct fold)");
+#endif
     __CPROVER_assert(!(k < n) || data[k] == at_k, "igris_mmc_crc7 does not modify the message");
     CANARY("mmc_crc7 harness end reachable");
 }
